@@ -275,7 +275,6 @@ func suiteC03(s *Suite, rng *Rng, tier string) {
 		"for base R_0; oracle: accepted iff same label => same secret; distinct by (round, labels, assignment)"
 }
 
-
 // diagnoseRejection re-does the steps of ProofList.Verify with the library's exported pieces to say which proof
 // of an honest list fails and at which step
 func diagnoseRejection(pl gabi.ProofList, pks []*gabikeys.PublicKey, ctx, nonce *gbig.Int, issig bool) (out string) {
